@@ -130,7 +130,11 @@ def run(ctx):
         per = 40 if thorough else 14
         seq = []
         for lam in (80, 128, 80, 128):
-            pick = rng.sample(hist[lam], min(per, len(hist[lam]))); seq += [(lam,) + x for x in pick]
+            # every kind of gate in every block (a defect in one gate's own bookkeeping must meet that gate): one case of each, then random ones
+            bygate = {}
+            for x in hist[lam]: bygate.setdefault(x[2], []).append(x)
+            pick = [rng.choice(v) for g, v in sorted(bygate.items())] + [rng.choice(bygate['MUX'])]
+            pick += rng.sample(hist[lam], max(0, min(per, len(hist[lam])) - len(pick))); seq += [(lam,) + x for x in pick]
         ho = vlib.run_lines(exe, [x[1] for x in seq], timeout=7200)
         for pos, ((lam, line, exp, g, kind), o) in enumerate(zip(seq, ho)):
             ctx.count((backend, build, 'history', pos, line[:4000])); ncases += 1
